@@ -21,8 +21,9 @@ CFG = {
     "assumptions": ["finite coordinates (NaN/±Inf are outside the exact model; -0.0 is identified with 0 and exercised by the correspondence run)",
                     "nil and empty slices are not distinguished (matters only for reflect.DeepEqual in Polygon.Within)"],
     "rule": "fixed corpus (degenerate, bow-tie, holes, multipolygons, *Bounds, -0.0, one-ulp edges) + EXHAUSTIVE: every ordered vertex triple on the "
-            "integer grid [0,2]^2 (thorough: [0,3]^2 and every quadruple on [0,2]^2), closed and unclosed spelling, against every point of the "
-            "half-integer grid one unit beyond (both spellings of zero) + seeded samples of quadrilaterals, pentagons, 1-3 ring polygons, "
+            "integer grids [0,2]^2 and [0,3]^2 (closed and unclosed spelling) and on the half-integer grid {0,.5,..,2}^2 (thorough: also "
+            "{0,.5,..,3}^2 and every ordered quadruple on [0,2]^2 and [0,3]^2), against every point of the "
+            "half-integer grid one unit beyond (for [0,2]^2 with both spellings of zero) + seeded samples of quadrilaterals, pentagons, 1-3 ring polygons, "
             "2-3 member multipolygons, half-integer and long rings, magnitudes up to 2^10 + random float polygons with points kept clear of edges "
             "(incl. ray through vertex, 1-3 ulp high edges, x = -0.0) judged on the exact dyadic values + the four receivers. "
             "A grid line is one polygonal geometry against all grid points; distinct = distinct input line; non-trivial = class not 'skipped'",
